@@ -380,11 +380,6 @@ def _has(c, tags):
     return False
 
 
-def _ragged(c):
-    from ..values import _block_shape
-    return c[0] == 'l' and len(c[1]) > 0 and _block_shape(c) is None
-
-
 def _unwrap1(c):
     """Replace every one-element list of a non-list by its element (to recognise "returned bare instead of in a list")."""
     if c[0] != 'l':
@@ -398,9 +393,12 @@ def _unwrap1(c):
 def _leaves(c):
     if c[0] == 'l':
         return [x for e in c[1] for x in _leaves(e)]
-    if c[0] == 's':
-        return [('c', ch) for ch in c[1]]
     return [c]
+
+
+def _nesting_only(exp, got):
+    g = _leaves(model._loosen(got))
+    return any(_leaves(model._loosen(norm(e))) == g for e in _single(exp))
 
 
 def _single(exp):
@@ -419,12 +417,8 @@ def classify(case, vmap, exp, got):
         return 'does-not-terminate'
     if verb.kind == 'op' and vtext not in verbs.MONADS and FORMS[first][2] is None:
         return 'dyad-only-operator-not-parsed-before-monadic-adverb'
-    if first == 'scan-iterating' and left == 0:
-        return 'scan-iterating-zero-count-returns-bare-operand'
     if first in ('each-left', 'each-right') and atom:
         return 'each-left-right-atom-operand'
-    if first == 'scan-over-neutral' and a[0] in 'ls' and len(a[1]) == 0:
-        return 'scan-over-neutral-empty-operand-returns-bare-neutral'
     if 'each' in forms and (a[0] in 'cy' or (forms[:2] == ('each', 'each') and (
             a[0] == 's' or (a[0] == 'l' and any(e[0] in 'cy' for e in a[1]))))):
         return 'each-character-or-symbol-atom-treated-as-string'
@@ -434,7 +428,7 @@ def classify(case, vmap, exp, got):
         return 'over-min-max-shortcut-on-nested-list-raises'
     if first == 'each2' and exc == 'ValueError':
         return 'each2-nested-results-raise'
-    if exc is None and not _has(exp, 'r') and _has(got[1], 'r'):
+    if exc is None and model.accepts(exp, got[1], loose=True):
         return 'integer-results-become-real'
     if 'scan-over' in forms or first == 'scan-over-neutral':
         if exc == 'TypeError' and (texty or _has(a, 'y')):
@@ -442,16 +436,18 @@ def classify(case, vmap, exp, got):
         if exc is None and (any(model.same(_unwrap1(e), _unwrap1(got[1])) for e in _single(exp))
                             or (atom and forms[0] == 'scan-over' and not texty)):
             return 'scan-over-atom-returned-bare'
+    if texty and exc is None and 'each' in forms and got[1][0] == 's' and a[0] == 's' and not (exp[0] == 's'):
+        return 'each-on-string-concatenates-string-results'
+    if exc is None and _nesting_only(exp, got[1]):
+        return 'result-collection-mangles-nested-results'
     if texty and exc is None:
-        if 'each' in forms and got[1][0] == 's' and a[0] == 's' and not (exp[0] == 's'):
-            return 'each-on-string-concatenates-string-results'
         if a[0] == 'c' and 'each' in forms:
             return 'each-character-atom-treated-as-string'
         if 'over' in forms and verb.arity == 2 and len(forms) == 1 and a[0] == 's' and len(a[1]) == 1:
             return 'over-single-character-string-returns-string'
         return 'string-elements-reach-verb-as-strings-not-characters'
-    if exc is None and any(_leaves(norm(e)) == _leaves(got[1]) for e in _single(exp)):
-        return 'result-collection-mangles-nested-results'
+    if exc is None and forms[0] == 'each' and _has(exp, 's') and _has(got[1], 's'):
+        return 'each-on-string-concatenates-string-results'        # an intermediate value of the chain is a string
     return 'unclassified ' + form_name(form) + (' exc:' + exc if exc else '')
 
 
@@ -578,6 +574,8 @@ def run(cfg):
         'rtol 1e-12; f\'dictionary as multiset; "" where the text says [] accepted as "" or []',
         'where the text gives two formulas that differ (a f/b written out vs. "formally f/a,b" for a list a; f\\[] ) either '
         'reading is accepted; Converge may stop at any value from the first undecided to the first certain Match',
+        'two cases the text does not spell out are accepted either way, because the language\'s own test suite '
+        '(tests/kgtests/language/test_suite.kg) expects the bare value: 0 f\\*a (a or [a]) and a f\\[] (a or [a])',
         'where a plain application of the expansion has an accept set in the reference (kind of an integral Power, of a mixed '
         'Min/Max, [] vs "") the adverb result may differ from the expansion in exactly that freedom; for accept sets that '
         'are a choice of value (Grade of ties, digits of Format) a differing result is not judged',
